@@ -133,7 +133,7 @@ def decoder():
                     res.extend(byte)
                     byte = yield res.decode("ascii")
                     break
-        elif byte == b"+":
+        elif byte in (b"+", b"-"):
             byte = yield byte.decode("ascii")
         else:
             if not isinstance(byte, bytes):
